@@ -214,7 +214,15 @@ static void task(void *arg)
                 g_connect_api = "xcm_connect_a";
                 xcm_attr_map_destroy(x);
                 if (s) {
-                    OP("xcm_finish", xcm_finish(s));
+                    /* with a remote name that resolves late the connect proper - and with it the resolution of a
+                       named local end - happens inside a later call on the socket: same call-site decoration */
+                    if (l >= 2) {
+                        OP("xcm_finish[xcm.local_addr=dns-name]", xcm_finish(s));
+                        OP("xcm_finish[xcm.local_addr=dns-name]", xcm_finish(s));
+                    } else {
+                        OP("xcm_finish", xcm_finish(s));
+                        OP("xcm_finish", xcm_finish(s));
+                    }
                     OP("xcm_close", xcm_close(s));
                 }
             }
